@@ -77,6 +77,8 @@ EnumAt(S, x, i) ==
      (IF x[i].t = "" /\ x[i].v = "U" THEN V("U", "", <<>>)
       ELSE IF x[i].t = "" /\ x[i].v = "Nw" /\ S.ss[1].t = "Unit" THEN V("Nw", "", <<V("Unit", "", <<>>)>>)
       ELSE IF x[i].t = "" /\ x[i].v = "Nw" /\ S.ss[1].t = "Opt" THEN V("Nw", "", <<V("None", "", <<>>)>>)
+      \* (likewise a struct variant all of whose fields are options: the absent payload reads like `St: ~`, an empty struct)
+      ELSE IF x[i].t = "" /\ x[i].v = "St" /\ S.ss[4].t = "Opt" THEN V("St", "", <<V("None", "", <<>>)>>)
       ELSE ERRN)
   ELSE IF x[i].k = "MS" THEN
      LET es == Entries(x, i) IN
